@@ -1,5 +1,6 @@
 import MorfuseModel.Sched.NotifyLemmas
 import MorfuseModel.Sched.MachineHostProps
+import MorfuseModel.Sched.MachineNotifyTraceHost
 /-!
 # C07 — waittill / notify: no lost, early or duplicate wake-ups  (table layer)
 
@@ -333,6 +334,74 @@ example : (runOps {} demoHub).outOfFuel = false ∧
 /-- the notifier's `local.p0 notify 1` at clock 5 wakes the waiter nested (marker 3 before marker 4) and
     cancels its other registration -/
 example : (runOps {} (demoHub ++ [.step 5])).out = ["m4", "m3"] ∧ (runOps {} (demoHub ++ [.step 5])).notify = [] := by
+  decide +kernel
+
+/-! ## Trace level: the clauses about histories, for the whole machine
+
+The **ghost ledger** of registrations and notifies: for every reachable state there is a history `ops : List NOp`
+(`reachable_notify_history`; from `nnAll`: every function of the machine changes the notify table only by
+`reg` = `Register`, `notify` = `Unregister(name)`, `purge`/`multiPurge` = a waiter's `CancelWaiting`, `removeOwner` =
+the source's `UnregisterAll`) whose replay from the empty table is the machine's notify table.  Positions in the
+list are the sequence numbers.  The ledger is existentially quantified, not stored: the executable machine and the
+driver's output are untouched.  No fuel condition.  What a `notify` does with the listeners it finds registered
+— `StoppedWaitFor` on each, in order, skipping the ones already destroyed — is
+`C07_machine_notify_wakes_registered_once`; so "registered when the notify is issued" below is a superset of
+"woken by it". -/
+
+theorem C07_trace_ledger_exists {s : State} (h : Reachable s) : ∃ ops : List NOp, nRun [] ops = s.notify :=
+  reachable_notify_history h
+
+/-- **A wake-up needs an earlier registration and a later notify, trace level.**  In the ledger of the run, every
+    listener that a `notify` on `(src, name)` finds registered was registered by a `reg src name x` that occurs
+    *before* that notify in the history: nobody proceeds because of a notify issued before its registration. -/
+theorem C07_trace_wake_needs_later_notify {s : State} (h : Reachable s) :
+    ∃ ops : List NOp, nRun [] ops = s.notify ∧
+      ∀ (pre post : List NOp) (src name : Nat), ops = pre ++ NOp.notify src name :: post →
+        ∀ x ∈ Tbl.getD (nRun [] pre) (src, name), NOp.reg src name x ∈ pre := by
+  obtain ⟨ops, ho⟩ := reachable_notify_history h
+  refine ⟨ops, ho, ?_⟩
+  intro pre post src name _ x hx
+  rcases nRun_mem pre [] (src, name) x hx with h1 | h1
+  · simp [Tbl.getD, Tbl.find] at h1
+  · exact h1
+
+/-- **At most once per registration, trace level.**  If two notifies on `(src, name)` in the ledger both find `x`
+    registered, then `x` registered again in between: one registration is consumed by one notify. -/
+theorem C07_trace_exactly_once {s : State} (h : Reachable s) :
+    ∃ ops : List NOp, nRun [] ops = s.notify ∧
+      ∀ (a b c : List NOp) (src name : Nat),
+        ops = a ++ NOp.notify src name :: (b ++ NOp.notify src name :: c) →
+        ∀ x ∈ Tbl.getD (nRun [] (a ++ NOp.notify src name :: b)) (src, name), NOp.reg src name x ∈ b := by
+  obtain ⟨ops, ho⟩ := reachable_notify_history h
+  refine ⟨ops, ho, ?_⟩
+  intro a b c src name _ x hx
+  have e : a ++ NOp.notify src name :: b = (a ++ [NOp.notify src name]) ++ b := by simp
+  rw [e, nRun_append, nRun_append] at hx
+  rcases nRun_mem b _ (src, name) x hx with h1 | h1
+  · rw [nRun_notify_clears] at h1; cases h1
+  · exact h1
+
+/-- **A removed source keeps nobody, trace level.**  After the source's `UnregisterAll` (object removal, thread
+    destruction) a later notify on it finds only listeners that registered after the removal; the listeners
+    registered before were destroyed by it (`C07_machine_removed_source_clears`: `StoppedWaitFor(name, true)`), they
+    never proceed. -/
+theorem C07_trace_removed_source {s : State} (h : Reachable s) :
+    ∃ ops : List NOp, nRun [] ops = s.notify ∧
+      ∀ (a b c : List NOp) (src name : Nat),
+        ops = a ++ NOp.removeOwner src :: (b ++ NOp.notify src name :: c) →
+        ∀ x ∈ Tbl.getD (nRun [] (a ++ NOp.removeOwner src :: b)) (src, name), NOp.reg src name x ∈ b := by
+  obtain ⟨ops, ho⟩ := reachable_notify_history h
+  refine ⟨ops, ho, ?_⟩
+  intro a b c src name _ x hx
+  have e : a ++ NOp.removeOwner src :: b = (a ++ [NOp.removeOwner src]) ++ b := by simp
+  rw [e, nRun_append, nRun_append] at hx
+  rcases nRun_mem b _ (src, name) x hx with h1 | h1
+  · rw [nRun_removeOwner_clears] at h1; cases h1
+  · exact h1
+
+/-! ### non-vacuity, trace level: the ledger of `demoWaiters` after its frame -/
+example : nRun [] [.reg 50 7 101, .reg 50 7 102] = (runOps {} demoWaiters).notify ∧
+    nRun [] [.reg 50 7 101, .reg 50 7 102, .notify 50 7] = (runOps {} (demoWaiters ++ [.step 5])).notify := by
   decide +kernel
 
 end Morfuse.Sched
